@@ -59,7 +59,8 @@ func (c Const) Validate(v bytes.Bytes) {
 		return
 	}
 
-	if v.String() != c.nodeValue.String() {
+	// Strings are compared by their decoded value: "a" and "\u0061" are the same string.
+	if v.InQuotes() != c.nodeValue.InQuotes() || v.Unquote().String() != c.nodeValue.Unquote().String() {
 		panic(errors.Format(errors.ErrInvalidConst, c.nodeValue.String()))
 	}
 }
